@@ -50,6 +50,10 @@ SHAPES = {
     'self-chain': {'main': (['main', 'a.m'], 1, 1), 'a.m': (['b.m'], 1, 1), 'b.m': ([], 2, 0)},
     'glob': {'main': (['lib/*.m'], 1, 1), 'lib/x.m': ([], 1, 0), 'lib/y.m': (['x.m'], 1, 1)},
 }
+THOROUGH_SHAPES = {
+    'wide': {'main': (['a.m', 'b.m'], 2, 1), 'a.m': (['b.m'], 2, 1), 'b.m': ([], 2, 0)},
+    'long-cycle': {'main': (['a.m'], 1, 1), 'a.m': (['b.m'], 1, 1), 'b.m': (['c.m'], 1, 1), 'c.m': (['main', 'a.m'], 1, 1)},
+}
 PROVIDERS = ['PlainNameImportURI', 'FQNImportURI', 'PlainNameImportURI-search-path']
 
 
@@ -386,6 +390,8 @@ def main():
     import textx.model as M
     chk = Check(PROP, 'model_checking')
     quick = chk.tier == 'quick'
+    if not quick:
+        SHAPES.update(THOROUGH_SHAPES)
     items = []
     for shape in SHAPES:
         for pi in range(len(PROVIDERS)):
@@ -459,6 +465,7 @@ def main():
 
 
 def replay(data):
+    SHAPES.update(THOROUGH_SHAPES)
     if data.get('naming'):
         return replay_concrete(data['shape'], data['provider'], data['global_repo'], data['builtin'], data['naming'])
     r = explore((data['shape'], data['provider'], data['global_repo'], data['builtin'], 20000))
